@@ -304,7 +304,7 @@ def run_case(scn, ctx):
                 # the digests printed for the altered file are the recorded one and the standard digest of the new bytes
                 import re as _re
 
-                lines = [l for l in res.output.splitlines() if l.startswith("ERROR: hash mismatch")]
+                lines = [l for l in res.output.split("\n") if l.startswith("ERROR: hash mismatch")]
                 require(len(lines) == 1, "verify_prints", "expected one mismatch line, got %r" % lines, res)
                 m = _re.search(r" old (\w+): (\S+), new (\w+): (\S+)$", lines[0])
                 require(m is not None, "verify_prints", "unparsable mismatch line %r" % lines[0], res)
@@ -313,7 +313,7 @@ def run_case(scn, ctx):
                         "verify prints old %s / new %s for %s; recorded %s, the altered bytes hash to %s" % (m.group(2), m.group(4), pf, ref.get(pf), refhash.digest(pf, bytes(mutated))), res)
                 res = w.create("R", formats=cli)
                 require(res.exit_code == 11, "create_detects", "create after the bit flip: " + res.brief(), res)
-                for l in [l for l in res.output.splitlines() if l.startswith("ERROR: hash mismatch")]:
+                for l in [l for l in res.output.split("\n") if l.startswith("ERROR: hash mismatch")]:
                     m = _re.search(r"  (\w+) \(old\): (\S+), (\w+) \(new\): (\S+)$", l)
                     require(m is not None and m.group(2) == ref[m.group(1)] and m.group(4) == refhash.digest(m.group(1), bytes(mutated)), "create_prints",
                             "create prints %r; recorded %s, the altered bytes hash to %s" % (l[-120:], ref.get(m.group(1)) if m else None, refhash.digest(m.group(1), bytes(mutated)) if m else None), res)
